@@ -382,6 +382,15 @@ def scalar_compare(op, l, r):
     raise Unsupported(f"compare {type(op).__name__}")
 
 
+def _ite_any(c, a, b):
+    """ite that also covers opaque values (labels, samples)"""
+    if isinstance(a, Opaque) and isinstance(b, Opaque):
+        return Opaque("ite", z3.If(c, a.sym, b.sym))
+    if isinstance(a, Opaque) or isinstance(b, Opaque):
+        return Opaque("ite")
+    return ite(c, a, b)
+
+
 def ite(c, a, b):
     """value-level if-then-else"""
     if isinstance(c, bool):
@@ -1131,6 +1140,19 @@ class Engine:
                 return
             raise Unsupported(f"attribute store on {base!r}")
         if isinstance(t, ast.Subscript):
+            inner = t.value
+            if isinstance(inner, ast.Subscript) and isinstance(inner.slice, ast.Slice) and inner.slice.step is None:
+                # A[lo:hi][...] = v: a basic slice is a VIEW -- store into the view, then write the view back into A
+                outer = self.eval(inner.value, st)
+                if isinstance(outer, Ref) and isinstance(st.get(outer), ArrData):
+                    od = st.get(outer)
+                    lo = to_int(self.eval(inner.slice.lower, st)) if inner.slice.lower is not None else z3.IntVal(0)
+                    hi = to_int(self.eval(inner.slice.upper, st)) if inner.slice.upper is not None else to_int(od.shape[0])
+                    view = st.alloc(ArrData((z3.simplify(hi - lo),) + tuple(od.shape[1:]), lambda i, *r, od=od, lo=lo: od.sel(i + lo, *r), od.kind))
+                    self.store_subscript(view, t.slice, v, st, t)
+                    nv = st.get(view)
+                    st.put(outer, ArrData(od.shape, lambda i, *r, od=od, nv=nv, lo=lo, hi=hi: _ite_any(z3.And(lo <= i, i < hi), nv.sel(i - lo, *r), od.sel(i, *r)), nv.kind))
+                    return
             base = self.eval(t.value, st)
             self.store_subscript(base, t.slice, v, st, t)
             return
